@@ -27,6 +27,8 @@ type IOEvent struct {
 	Size int    `json:"size,omitempty"`
 	Data []byte `json:"-"`
 	Tag  int    `json:"tag,omitempty"` // marker payload (e.g. txid)
+	// Failed: the call was failed by injection, i.e. it was NOT performed
+	Failed bool `json:"failed,omitempty"`
 }
 
 type rwState struct {
@@ -272,7 +274,11 @@ func (e *Env) onEvent(ev *bolt.VerifEvent) error {
 			return err
 		}
 	}
-	if e.FailAt > 0 && e.EventN == e.FailAt && e.FailKinds != "" && !strings.Contains(e.FailKinds, kind+",") {
+	fk := kind
+	if kind == "S" && e.inCommit && e.MetaWrittenInCommit {
+		fk = "SF" // the final sync of a commit (after its meta write) is a kind of its own
+	}
+	if e.FailAt > 0 && e.EventN == e.FailAt && e.FailKinds != "" && !strings.Contains(","+e.FailKinds, ","+fk+",") {
 		e.FailAt++ // not a call of the kinds to fail: the next one is the candidate
 	}
 	if e.FailAt > 0 && e.EventN == e.FailAt {
@@ -280,6 +286,9 @@ func (e *Env) onEvent(ev *bolt.VerifEvent) error {
 		e.FailedInTx = e.inCommit
 		e.FailedFinalSync = e.inCommit && kind == "S" && e.MetaWrittenInCommit
 		e.ReadersAtFailure = len(e.RO)
+		if e.RecordIO && len(e.Trace) > 0 {
+			e.Trace[len(e.Trace)-1].Failed = true
+		}
 		return fmt.Errorf("verif: injected failure of I/O event #%d (%s)", e.EventN, kind)
 	}
 	return nil
@@ -532,7 +541,7 @@ func (e *Env) apply(op Op) *Violation {
 		e.Failed = nil
 		e.FailKinds = op.Note
 		if e.FailKinds == "" {
-			e.FailKinds = "W,S,T,GS,"
+			e.FailKinds = "W,S,SF,T,GS,"
 		}
 		e.Label("fault-armed")
 		return nil
